@@ -870,6 +870,7 @@ func main() {
 	}
 	run.Set("hostile_documents", nh)
 	appConfScenario()
+	adapterQueueCapScenario(run.Pick(4, 12))
 	run.Finish()
 }
 
